@@ -36,6 +36,15 @@ pub trait Fam: Serialize + for<'de> Deserialize<'de> + PartialEq + Debug + Clone
     fn payload2(_s: &str, _strict: bool) -> Vec<Self> {
         Vec::new()
     }
+    /// F6: the value the deserializer produces when the blanks inside the items of a `$text` list split them
+    fn with_items_split_at_blanks(&self) -> Option<Self> {
+        None
+    }
+    /// F5 in a list position: the value the deserializer produces when empty text items are written as
+    /// nothing (None: the type has no such position)
+    fn without_empty_text_items(&self) -> Option<Self> {
+        None
+    }
     /// Hand-written documents that present the same value with the documented `xsi:nil="true"`
     /// notation for absent optional elements (the serializer never writes them).
     fn nil_docs(&self) -> Vec<String> {
@@ -478,6 +487,9 @@ impl Fam for TextList {
         }
         vec![TextList { items: vec![s.to_string()] }, TextList { items: vec!["x".into(), s.to_string(), "y".into()] }]
     }
+    fn with_items_split_at_blanks(&self) -> Option<Self> {
+        Some(TextList { items: self.items.iter().flat_map(|i| i.split(' ')).filter(|p| !p.is_empty()).map(String::from).collect() })
+    }
     fn shape(&self) -> Option<Shape> {
         if self.items.iter().any(|i| i.contains(' ')) {
             // F6 is about the blank: tab, LF and CR inside an item are written as references and survive
@@ -743,6 +755,9 @@ impl Fam for Mixed {
             Mixed { items: vec![Choice::Unit, Choice::Text(s.to_string()), Choice::Newtype(s.to_string())] },
             Mixed { items: vec![Choice::Text(s.to_string()), Choice::Unit, Choice::Text(s.to_string())] },
         ]
+    }
+    fn without_empty_text_items(&self) -> Option<Self> {
+        Some(Mixed { items: self.items.iter().filter(|c| !matches!(c, Choice::Text(t) if t.is_empty())).cloned().collect() })
     }
     fn shape(&self) -> Option<Shape> {
         if self.items.iter().any(|c| matches!(c, Choice::Text(t) if t.is_empty())) {
